@@ -232,6 +232,8 @@ MUT_VALUES = [None, True, False, 0, -1, 1, 5, 2 ** 32 - 1, 2 ** 32, 2 ** 64 - 1,
               "version", "sign", "nope", 2147483647, 2147483648, 4294967295, 4294967296, 18446744073709551615,
               18446744073709551616]
 ABSENT = object()
+# literals harvested from changed source functions (harness/fingerprint.py); empty on the recorded tree
+EXTRA_VALUES = []
 # always tried, even when the matrix is sampled
 PRIORITY = [None, "", "zz", [], {}, True, -1, 2 ** 32, "0x" + "ab" * 16, "0x" + "ab" * 32, "ab cd", 5.0, "\u0660\u0661\u0662\u0663"]
 
@@ -268,13 +270,13 @@ def set_path(v, path, val):
 
 def mutations(req, rng, per_path=None, extra_values=()):
     """single-field mutations of `req`: every path x every palette value (or a sample)"""
-    vals = MUT_VALUES + list(extra_values)
+    vals = MUT_VALUES + list(extra_values) + list(EXTRA_VALUES)
     for path in paths_of(req):
         if not path:
             continue
         choices = [ABSENT] + vals
         if per_path is not None:
-            choices = [ABSENT] + PRIORITY + rng.sample(vals, min(per_path, len(vals)))
+            choices = [ABSENT] + PRIORITY + list(EXTRA_VALUES) + rng.sample(vals, min(per_path, len(vals)))
         for val in choices:
             yield path, ("<absent>" if val is ABSENT else val), set_path(req, path, val)
     # extra keys
